@@ -158,6 +158,15 @@ def decide(pid, tier, seed, keep=False, only_obligation=None):
                     obligations.append(dict(o, unit=u["id"], engine="mechanical", kind="complete"))
         # ------------------------------------------------------------ verdict
         viol_lines, known_lines, incon = [], [], []
+        by_harness = {o.get("harness"): o for o in obligations if o["engine"] == "kani"}
+        for o in obligations:
+            # A Verus obligation that stopped verifying while its complete Kani twin discharges the same
+            # postcondition for all inputs is a proof that became too hard, not a violation.
+            tw = by_harness.get(o.get("twin")) if o.get("twin") else None
+            if o["status"] == "failed" and o["engine"] == "verus" and tw and tw["status"] == "discharged" and tw["kind"] == "complete":
+                o["status"] = "inconclusive"
+                o["detail"] = ["Verus could not discharge the obligation but its complete Kani twin %s proves the same "
+                               "postcondition for all inputs: proof brittleness, not a violation" % tw["name"]] + [json.dumps(o["detail"])[:800]]
         for o in obligations:
             if o["status"] == "inconclusive" or o["status"] == "undecided":
                 incon.append(o)
@@ -370,9 +379,20 @@ def main(argv):
     ap.add_argument("--setup", action="store_true")
     ap.add_argument("--keep", action="store_true")
     ap.add_argument("--only")
+    ap.add_argument("--dev-verus", help="weave + run one Verus unit, print the verifier output (development aid)")
     a = ap.parse_args(argv)
     if a.setup:
         return setup()
+    if a.dev_verus:
+        u = registry.units()[a.dev_verus]
+        wd = tempfile.mkdtemp(prefix="fir-verif.")
+        r = verus.check_unit(u["id"], u["verus"], wd, u["verus"].get("timeout", 300))
+        log(r["raw_stderr"][-8000:])
+        for o in r["obligations"]:
+            log(o["name"], o["status"], json.dumps(o["detail"])[:400])
+        log("status", r["status"], "notes", r["notes"], "verified_fns", r.get("verified_fns"), "wall %.1fs" % r["wall_s"], r.get("canaries"))
+        log("woven file:", r["woven_path"])
+        return 0
     if not a.property:
         ap.error("property id required")
     seed = int(os.environ.get("VERIF_SEED", "0") or 0)
